@@ -1,9 +1,250 @@
 import NbioVerif.DrvCommon
-/-! stub driver: answers "bad-op" to every line until the family's model is wired in -/
-partial def loop (h : IO.FS.Stream) : IO Unit := do
+import NbioVerif.Model.ExecQ
+/-! jobqdrv: runs the job-queue model (M2, `ExecQ`) on the annotated ops of `hjobq`.
+
+Each harness op is a *composite* of model steps: the harness action itself (`submit`, `close`,
+`finish`, the executor starting a closure = `spawn`) followed by every step the implementation takes
+by itself until it is stable again (`start` of a held job, `finish` of an ungated job, `next`).
+The executor (inline / go / tp: starts a closure at once; park: on `W`; pool: `slots` workers and a
+FIFO backlog) is part of the driver, not of the model: in the model it is the scheduler. -/
+open ExecQ
+
+structure DS where
+  kind   : Kind := .conn
+  exec   : String := "go"
+  slots  : Nat := 1
+  busy   : Nat := 0
+  parked : List Nat := []                 -- conns whose drainer closure is held by the executor
+  conns  : List St := []
+  gated  : List (Nat × Bool) := []        -- job ↦ waits for its gate
+  owner  : List (Nat × Nat) := []         -- conn ↦ job whose submitting call runs the drainer inline
+  evs    : List String := []
+  rets   : List (Nat × Nat) := []
+  known  : List Nat := []                 -- job ids used so far
+  big    : Bool := false                  -- Timer.Async: the backing array shrank during this op (cap > 1024 branch)
+  quiet  : Bool := false                  -- bursts: the event list is not printed, do not build it
+
+def DS.conn (d : DS) (c : Nat) : St := d.conns.getD c {}
+def DS.setConn (d : DS) (c : Nat) (s : St) : DS := { d with conns := d.conns.set c s }
+def DS.isGated (d : DS) (j : Nat) : Bool := ((d.gated.find? (·.1 == j)).map (·.2)).getD true
+def DS.emit (d : DS) (c : Nat) (k : String) (j : Nat) : DS :=
+  if d.quiet then d else { d with evs := d.evs ++ [s!"{c}.{k}{j}"] }
+
+/-- the histories (`log`, `done`, `acc`) are ghost state: no step reads them.  During bursts of thousands
+    of jobs the driver drops them so that appending stays cheap. -/
+def trim (d : DS) (s : St) : St := if d.quiet then { s with log := [], done := [] } else s
+
+def tryStep (d : DS) (c : Nat) (a : Act) : Option DS := (step d.kind (d.conn c) a).map fun s => d.setConn c (trim d s)
+
+mutual
+/-- let conn `c` run until it is stable: a held job is entered, an ungated job returns, the locked
+    hand-over is taken; stops at a gated running job, at a closure the executor has not started, or
+    when the drainer has exited -/
+partial def settle (d : DS) (c : Nat) : DS :=
+  match (d.conn c).drs with
+  | [] => d
+  | x :: _ =>
+    match x.ph with
+    | .spawned => d
+    | .ready =>
+      match tryStep d c (.start 0) with
+      | some d' => settle (d'.emit c "s" x.job) c
+      | none => d
+    | .running =>
+      if d.isGated x.job then d
+      else match tryStep d c (.finish 0 false) with
+        | some d' => settle (d'.emit c "e" x.job) c
+        | none => d
+    | .finished =>
+      match tryStep d c (.next 0 d.big) with
+      | some d' => if (d'.conn c).drs.isEmpty then onExit d' c else settle d' c
+      | none => d
+
+/-- the drainer of conn `c` has returned: an inline submitter's call returns, a pool worker takes the
+    next closure of the backlog -/
+partial def onExit (d : DS) (c : Nat) : DS :=
+  let d := match d.owner.find? (·.1 == c) with
+    | some (_, j) => { d with rets := d.rets ++ [(j, 1)], owner := d.owner.filter (·.1 != c) }
+    | none => d
+  if d.exec == "pool" then
+    match d.parked with
+    | n :: rest => spawnStart { d with parked := rest } n
+    | [] => { d with busy := d.busy - 1 }
+  else d
+
+partial def spawnStart (d : DS) (c : Nat) : DS :=
+  match tryStep d c (.spawn 0 d.big) with
+  | some d' => if (d'.conn c).drs.isEmpty then onExit d' c else settle d' c
+  | none => d
+end
+
+/-- a submission (Execute / MustExecute / Async) and everything it triggers -/
+def submit (d : DS) (c j : Nat) (must gated nested report : Bool) : DS :=
+  let s := d.conn c
+  match step d.kind s (.submit j must) with
+  | none => d
+  | some s' =>
+    let accepted := s'.acc.length > s.acc.length
+    let newDrainer := s'.drs.length > s.drs.length
+    let s' := if d.quiet then { s' with acc := [] } else s'
+    let d := { d.setConn c s' with gated := (j, gated) :: d.gated }
+    let inlineOwner := newDrainer && d.exec == "inline" && !nested
+    let d := if !report then d
+             else if inlineOwner then { d with owner := (c, j) :: d.owner }
+             else { d with rets := d.rets ++ [(j, if accepted then 1 else 0)] }
+    if !newDrainer then d
+    else if d.exec == "park" then { d with parked := d.parked ++ [c] }
+    else if d.exec == "pool" then
+      if d.busy < d.slots then spawnStart { d with busy := d.busy + 1 } c
+      else { d with parked := d.parked ++ [c] }
+    else spawnStart d c
+
+def showJobs (d : DS) : String := ",".intercalate (d.conns.map fun s => toString s.list.length)
+
+def insertSorted (x : Nat × Nat) : List (Nat × Nat) → List (Nat × Nat)
+  | [] => [x]
+  | y :: ys => if x.1 ≤ y.1 then x :: y :: ys else y :: insertSorted x ys
+
+def result (d : DS) : String :=
+  let rets := (d.rets.foldl (fun acc x => insertSorted x acc) []).map fun (j, r) => s!"{j}:{r}"
+  s!"ev={",".intercalate d.evs} ret={",".intercalate rets} jobs={showJobs d}"
+
+def DS.clear (d : DS) : DS := { d with evs := [], rets := [] }
+
+def runningJob (d : DS) (c : Nat) : Option Nat :=
+  match (d.conn c).drs with
+  | x :: _ => if x.ph == .running then some x.job else none
+  | [] => none
+
+/-- is `order` an admissible run order of a burst: every id belongs to exactly one submitter, no
+    repetition, each submitter's ids ascending, `want` ids in total -/
+def admissible (base n k : Nat) (order : List Nat) (want : Nat) : Bool :=
+  let rec go (xs : List Nat) (nexts : List Nat) : Bool :=
+    match xs with
+    | [] => true
+    | x :: r =>
+      if x < base then false else
+      let i := (x - base) / n
+      if i ≥ k then false else
+      if nexts.getD i 0 != (x - base) % n then false
+      else go r (nexts.set i ((x - base) % n + 1))
+  order.length == want && go order (List.replicate k 0)
+
+partial def loop (h : IO.FS.Stream) (d : DS) : IO Unit := do
   let line ← h.getLine
   if line.isEmpty then return ()
-  IO.println "bad-op"
-  loop h
+  let ws := (line.trimAscii.toString.splitOn " ").filter (· ≠ "")
+  let fld := fun k => (Drv.field ws k).getD ""
+  let nums := (ws.drop 1).filter (fun w => !w.contains '=') |>.map String.toNat!
+  let d := { d with big := fld "big" == "1" }
+  match ws.head? with
+  | some "C" =>
+    let kind := if fld "kind" == "async" then Kind.async else Kind.conn
+    let n := (fld "nconn").toNat!
+    IO.println "ok"
+    loop h { kind, exec := fld "exec", slots := (fld "slots").toNat!, conns := List.replicate n {} }
+  | some "S" =>
+    match nums with
+    | c :: j :: _ =>
+      let from_ := fld "from"
+      let nested := from_ != "-" && from_ != ""
+      let hostOk := !nested || (runningJob d c == some from_.toNat! && d.isGated from_.toNat!)
+      if d.known.contains j || j ≥ 1000 || !hostOk then IO.println "rejected"; loop h d
+      else
+        let must := fld "must" == "1" || d.kind == .async
+        let d := submit { d.clear with known := j :: d.known } c j must (fld "g" != "0") nested true
+        IO.println (result d)
+        loop h d
+    | _ => IO.println "bad-op"; loop h d
+  | some "W" =>
+    match d.parked with
+    | c :: rest =>
+      if d.exec != "park" then IO.println "rejected"; loop h d
+      else
+        let d := spawnStart { d.clear with parked := rest } c
+        IO.println (result d)
+        loop h d
+    | [] => IO.println "rejected"; loop h d
+  | some "F" =>
+    match nums with
+    | c :: j :: _ =>
+      if runningJob d c != some j || !d.isGated j then IO.println "rejected"; loop h d
+      else
+        match tryStep d.clear c (.finish 0 (fld "p" == "1")) with
+        | some d' =>
+          let d' := settle (d'.emit c "e" j) c
+          IO.println (result d')
+          loop h d'
+        | none => IO.println "rejected"; loop h d
+    | _ => IO.println "bad-op"; loop h d
+  | some "X" =>
+    match nums with
+    | c :: _ =>
+      let d := d.clear
+      if (d.conn c).closed then IO.println (result d); loop h d
+      else
+        match tryStep d c .close with
+        | some d' =>
+          -- the engine's close handler routes through MustExecute
+          let d' := submit d' c (1000 + c) true false false true
+          IO.println (result d')
+          loop h d'
+        | none => IO.println "rejected"; loop h d
+    | _ => IO.println "bad-op"; loop h d
+  | some "B" =>
+    match nums with
+    | c :: n :: k :: _ =>
+      let idle := d.conns.all (fun s => s.list.isEmpty)
+      if d.exec == "park" || d.exec == "pool" || !idle then IO.println "rejected"; loop h d
+      else
+        let base := (fld "base").toNat!
+        let order := ((fld "order").splitOn ",").filter (· ≠ "") |>.map String.toNat!
+        let closed := (d.conn c).closed && d.kind == .conn
+        let want := if closed then 0 else n * k
+        if !admissible base n k order want then
+          IO.println s!"model: run order of the burst is not an admissible merge of {k} submitters x {n} jobs"
+          loop h d
+        else
+          let hold := fld "hold" == "1"
+          let must := d.kind == .async
+          let d := { d.clear with quiet := true }
+          let d := if hold then submit d c (base + 9999) must true false false else d
+          let d := order.foldl (fun d j => submit d c j must false false false) d
+          let d := if hold then
+              match tryStep d c (.finish 0 false) with
+              | some d' => settle d' c
+              | none => d
+            else d
+          IO.println s!"acc={want} ran={order.length} jobs={showJobs d}"
+          loop h { d.clear with quiet := false }
+    | _ => IO.println "bad-op"; loop h d
+  | some "H" =>
+    -- hammer: k goroutines call Execute n times each while another one calls Close
+    match nums with
+    | c :: n :: k :: _ =>
+      let idle := d.conns.all (fun s => s.list.isEmpty)
+      if d.exec == "park" || d.exec == "pool" || !idle || d.kind != .conn || (d.conn c).closed then
+        IO.println "rejected"; loop h d
+      else
+        let base := (fld "base").toNat!
+        let order := ((fld "order").splitOn ",").filter (· ≠ "") |>.map String.toNat!
+        let closeId := 1000 + c
+        let body := order.filter (· != closeId)
+        if order.length != body.length + 1 || !admissible base n k body body.length then
+          IO.println s!"MODEL the jobs that ran are not a merge of prefixes of the {k} submitters' sequences plus the close handler"
+          loop h d
+        else if order.getLast? != some closeId then
+          IO.println "MODEL a job accepted by Execute ran after the close handler (close; submit is refused in the model)"
+          loop h d
+        else
+          let d := { d.clear with quiet := true }
+          let d := body.foldl (fun d j => submit d c j false false false false) d
+          let d := match tryStep d c .close with
+            | some d' => submit d' c closeId true false false false
+            | none => d
+          IO.println s!"acc={body.length} ran={order.length} jobs={showJobs d}"
+          loop h { d.clear with quiet := false }
+    | _ => IO.println "bad-op"; loop h d
+  | _ => IO.println "bad-op"; loop h d
 
-def main : IO Unit := do loop (← IO.getStdin)
+def main : IO Unit := do loop (← IO.getStdin) {}
